@@ -22,7 +22,7 @@ def sel(pool, idx, key):
     return acc
 
 
-def h_schedule(ctx, frags, events, body, via="queue"):
+def h_schedule(ctx, frags, events, body, via="queue", qmax=None, prefix=()):
     """frags: fragments per sender, e.g. [3, 2]; body: bytes per fragment"""
     from circuitpython_nrf24l01.network.structs import RF24NetworkFrame, FrameQueueFrag
     from vsym.core import SBytes
@@ -50,6 +50,8 @@ def h_schedule(ctx, frags, events, body, via="queue"):
         msgs.append(dict(origin=origin, id=fid, type=mtype, data=data))
         pool.extend(FS.fragments(origin, me, fid, mtype, data, frag_size=body))
     q = FrameQueueFrag() if node is None else node.queue
+    if qmax is not None:  # a queue this small refuses completed messages while the application has not read the earlier ones
+        q.max_queue_size = qmax
     frame = RF24NetworkFrame()
     delivered = []
     # ghost (reference, strict, single cache): progress[s] = fragments of sender s accepted in order since its
@@ -61,7 +63,7 @@ def h_schedule(ctx, frags, events, body, via="queue"):
     progress = [0] * len(frags)
     done = [False] * len(frags)
     for ev in range(events):
-        pick = ctx.int("pick%d" % ev, 0, len(pool) - 1)
+        pick = ctx.int("pick%d" % ev, 0, len(pool) - 1) if ev >= len(prefix) else prefix[ev]
         for s, f in enumerate(frags):
             is_first = pick == first_idx[s]
             # KF-C06-1: the complete stream of a message delivered again after it was completed is delivered again
@@ -195,6 +197,11 @@ def jobs(tier):
     for frags, events in plan:
         out.append(Job("symbolic-delivery-schedule", h_schedule, dict(frags=frags, events=events, body=2),
                        cost=len(frags) * events ** 2, shards=(1 if tier == "quick" or events < 5 else 8)))
+    # a queue of one frame: the first message is delivered in order and stays unread while the second arrives (refused); the rest is free
+    for frags, events, prefix in ((([2, 2], 6, [0, 1, 2]), ([3, 2], 6, [0, 1, 2])) if tier == "quick" else
+                                  (([2, 2], 7, [0, 1, 2]), ([3, 2], 7, [0, 1, 2]), ([2, 3], 7, [0, 1]), ([2, 2, 2], 7, [0, 1, 2, 3]), ([2, 2], 5, []))):
+        out.append(Job("symbolic-delivery-schedule-with-a-full-queue", h_schedule,
+                       dict(frags=frags, events=events, body=2, qmax=1, prefix=prefix), cost=len(frags) * (events - len(prefix)) ** 2 * 4, shards=4))
     for frags, events in (([2], 3), ([3], 3), ([2, 2], 3)) if tier == "quick" else (([2], 4), ([3], 5), ([2, 2], 4), ([3, 2], 4), ([4], 4)):
         out.append(Job("symbolic-delivery-schedule-through-update", h_schedule, dict(frags=frags, events=events, body=2, via="update"),
                        cost=4 * len(frags) * events ** 2, shards=4))
